@@ -78,7 +78,7 @@ fn rule_new_builder(lex_flags: &LexFlags) -> (re: RegexBuilder)
     requires lex_flags.octal is Some && lex_flags.multi_line is Some && lex_flags.dot_matches_new_line is Some,
     ensures re.o == (ReOpts { octal: lex_flags.octal, multi_line: lex_flags.multi_line, dot_matches_new_line: lex_flags.dot_matches_new_line, ignore_whitespace: lex_flags.ignore_whitespace,
         unicode: lex_flags.unicode, case_insensitive: lex_flags.case_insensitive, swap_greed: lex_flags.swap_greed, size_limit: lex_flags.size_limit, dfa_size_limit: lex_flags.dfa_size_limit,
-        nest_limit: lex_flags.nest_limit }), // OBL: C11.flags.every_regex_is_built_with_exactly_the_flags_in_force
+        nest_limit: lex_flags.nest_limit }), // OBL: C11.flags.every_regex_is_built_with_exactly_the_flags_in_force C09.flags.every_regex_is_built_with_exactly_the_flags_in_force
 {
     //@probe
     //@body file=lrlex/src/lib/lexer.rs fn=new nth=1 block=`let mut re = RegexBuilder::new\(` endx=`^\s*let re = re\.build\(\)\?;$`
